@@ -2105,6 +2105,17 @@ def fold_list_concat(fn):
     class F(ast.NodeTransformer):
         def _flatten_starred(self, n):
             self.generic_visit(n)
+            # `f(**{"a": x, "b": y})` -> `f(a=x, b=y)`: a literal keyword dictionary
+            if any(k.arg is None and isinstance(k.value, ast.Dict) and all(isinstance(kk, ast.Constant) and isinstance(kk.value, str) and kk.value.isidentifier() for kk in k.value.keys) for k in n.keywords):
+                kws = []
+                for k in n.keywords:
+                    if k.arg is None and isinstance(k.value, ast.Dict) and all(isinstance(kk, ast.Constant) and isinstance(kk.value, str) and kk.value.isidentifier() for kk in k.value.keys):
+                        kws.extend(ast.keyword(arg=kk.value, value=vv) for kk, vv in zip(k.value.keys, k.value.values))
+                    else:
+                        kws.append(k)
+                if len({k.arg for k in kws if k.arg}) == len([k for k in kws if k.arg]):
+                    n.keywords = kws
+                    n_fold[0] += 1
             # `f(*(a, b), *(c,))` -> `f(a, b, c)`: starred literal tuples in an argument list
             if any(isinstance(a, ast.Starred) and isinstance(a.value, (ast.Tuple, ast.List)) and not any(isinstance(x, ast.Starred) for x in a.value.elts) for a in n.args):
                 args = []
